@@ -21,6 +21,19 @@ def _need_sk_valid(ob, known, key, what, where, notes):
                found='facts: %s' % sorted(T.show(x, maxdepth=3) for x in known)[:8])
 
 
+def _exception_object(p, leaf):
+    """An instance of an exception class (of the package or of the library) handed out as a value."""
+    if T.tag(leaf) == 'obj':
+        ci = p.classes.get(leaf[1])
+        if ci is not None:
+            names = {b.split('.')[-1] for c_ in ci.mro() for b in c_.base_names} | {c_.name for c_ in ci.mro()}
+            return any(n.endswith(('Error', 'Exception', 'Warning')) or n == 'BaseException' for n in names)
+    if T.is_op(leaf, 'EXC') or (T.is_op(leaf, 'EXTCALL') and len(leaf) > 2 and T.is_const(leaf[2])
+                                  and str(leaf[2][1]).endswith(('Error', 'Exception'))):
+        return True
+    return False
+
+
 def run(ctx):
     p = ctx.p
     ctx.explanation = (
@@ -42,6 +55,10 @@ def run(ctx):
                 ob.undecided('master_key has no non-raising exit', fi.where)
             notes = ''.join(' [note: %s]' % d for d in discarded_exceptions(fi))
             for conds, leaf in nl:
+                if _exception_object(p, leaf):
+                    ob.require(False, 'master_key hands an exception object back as a value (built and returned, not raised)' + notes,
+                               fi.where, expected='raise', found=T.show(leaf, maxdepth=2))
+                    continue
                 if T.tag(leaf) != 'obj':
                     ob.undecided('master_key returns a value that is not a constructed node: %s' % T.show(leaf, maxdepth=3))
                     continue
@@ -60,6 +77,10 @@ def run(ctx):
                     ob.undecided('ckd has no non-raising exit', fi.where)
                 notes = ''.join(' [note: %s]' % d for d in discarded_exceptions(fi))
                 for conds, leaf in nl:
+                    if _exception_object(p, leaf):
+                        ob.require(False, 'PrvKeyNode.ckd hands an exception object back as if it were the child (built and returned, '
+                                   'not raised)' + notes, fi.where, expected='raise', found=T.show(leaf, maxdepth=2))
+                        continue
                     if T.tag(leaf) != 'obj':
                         ob.undecided('ckd returns a value that is not a constructed node')
                         continue
@@ -91,6 +112,11 @@ def run(ctx):
                 ob.undecided('ckd has no non-raising exit', fi.where)
             notes = ''.join(' [note: %s]' % d for d in discarded_exceptions(fi))
             for conds, leaf in nl:
+                if _exception_object(p, leaf):
+                    ob.require(False, 'PubKeyNode.ckd hands an exception object back as if it were the child (built and returned, '
+                               'not raised): the invalid case is not reported' + notes, fi.where,
+                               expected='raise', found=T.show(leaf, maxdepth=2))
+                    continue
                 if T.tag(leaf) != 'obj':
                     ob.undecided('ckd returns a value that is not a constructed node')
                     continue
